@@ -43,6 +43,18 @@ func (c18) Gen(seed uint64, idx int, tier string) *Scenario {
 	if r.Chance(1, 6) {
 		cfg.Pad = r.Range(4000, 9000) // sources of 2-3 read pages
 	}
+	longConsts := r.Chance(1, 4)
+	mode := r.Weighted(10, 4, 3, 3)
+	if mode == 3 && r.Chance(1, 2) {
+		longConsts = true // the fault runs need dumps that are written in several pieces
+	}
+	if longConsts {
+		cfg.LongTail = true // constants larger than any write buffer
+		cfg.LongSizes = []int{97, 300, 4096, 4097, 5000, 9000}
+		if class == "ok" {
+			cfg.Stmts = r.Range(6, 20)
+		}
+	}
 	p := gen.Generate(r, cfg)
 	switch class {
 	case "parse-error":
@@ -67,7 +79,7 @@ func (c18) Gen(seed uint64, idx int, tier string) *Scenario {
 	}
 	sc.SetStr("flags", flags)
 	sc.SetStr("filemode", prng.Pick(r, []string{"name", "name", "name", "dash", "stdin"}))
-	switch r.Weighted(10, 4, 3, 3) {
+	switch mode {
 	case 1:
 		sc.SetStr("mode", "bdump")
 		sc.SetStr("filemode", "name")
@@ -257,7 +269,12 @@ func (c18) Run(t *testing.T, sc *Scenario) *Outcome {
 	dir := c18Dir()
 	r := prng.New(uint64(sc.Int("aseed", 1)), "argv")
 	flags := sc.Str("flags")
-	srcName := prng.Pick(r, []string{"prog.bcl", "conf.bcl", "noext", "x.y.bcl", "lib.bcl", "basic.bcl", "abc.bcl", "a.b.bcl", "x..bcl", "bcl.bcl"})
+	srcName := prng.Pick(r, []string{"prog.bcl", "conf.bcl", "noext", "x.y.bcl", "lib.bcl", "basic.bcl", "abc.bcl", "a.b.bcl", "x..bcl", "bcl.bcl",
+		strings.Repeat("n", prng.Pick(r, []int{91, 92, 96, 120, 200})) + ".bcl", "./././././././././././././././././././././././././././././././././././././././././././././././prog.bcl"})
+	if strings.Contains(srcName, "/") {
+		os.WriteFile(filepath.Join(dir, "prog.bcl"), sc.Src, 0o644)
+		defer os.Remove(filepath.Join(dir, "prog.bcl"))
+	}
 	os.WriteFile(filepath.Join(dir, srcName), sc.Src, 0o644)
 	defer os.Remove(filepath.Join(dir, srcName))
 	o.Hash = hash64(string(sc.Src)) ^ hash64(flags+sc.Str("mode")+sc.Str("filemode")+sc.Str("fault"))
